@@ -689,8 +689,13 @@ def replay(ctx, obj) -> int:
         except ValueError as ex:
             got = "ValueError: " + str(ex)
         exp = want if case["fn"] == "filter_paths" else bool(want)
-        print(f"{case['fn']} -> {got!r}; pathlib's own matching selects {want!r}")
-        if got != exp and not (orc.conflict(kw["case_sensitive"], i, x) and isinstance(got, str)):
+        confl = orc.conflict(kw["case_sensitive"], i, x)
+        print(f"{case['fn']} -> {got!r}; pathlib's own matching selects {want!r}; a pattern is both included and excluded: {confl}")
+        if confl and case["paths"]:
+            if not (isinstance(got, str) and got.startswith("ValueError")):
+                res.failures.append(Failure(what=case["fn"] + ": a pattern both included and excluded is not rejected", case=case,
+                                            observed=got, expected="ValueError"))
+        elif got != exp and not (confl and isinstance(got, str)):
             res.failures.append(Failure(what=case["fn"] + " differs from pathlib's own matching", case=case, observed=got,
                                         expected=exp))
     elif case.get("fn") == "_match_path":
@@ -701,8 +706,13 @@ def replay(ctx, obj) -> int:
         except ValueError as ex:
             got = "ValueError: " + str(ex)
         exp = orc.selected(case["case_sensitive"], case["path"], case["included"], case["excluded"])
-        print(f"_match_path -> {got!r}; pathlib: {exp!r}")
-        if got != exp and not isinstance(got, str):
+        confl = orc.conflict(case["case_sensitive"], case["included"], case["excluded"])
+        print(f"_match_path -> {got!r}; pathlib: {exp!r}; a pattern is both included and excluded: {confl}")
+        if confl:
+            if not isinstance(got, str):
+                res.failures.append(Failure(what="_match_path: a pattern both included and excluded is not rejected", case=case,
+                                            observed=got, expected="ValueError"))
+        elif got != exp:
             res.failures.append(Failure(what="_match_path differs from pathlib", case=case, observed=got, expected=exp))
     for f in res.failures:
         print("FAIL:", f.what, "| observed", f.observed, "| expected", f.expected)
